@@ -83,6 +83,28 @@ theorem C06_sb_label_fails_on_witness :
     (assignPositions (SM.rotateDefault witnessD26).1 witnessD26Players).map (fun ps => ps.map (fun p => (p.id, p.positions))) =
       some [(1, []), (2, []), (3, ["dealer"]), (4, ["ug"]), (5, ["bb"])] := by decide
 
+/-- D27: a player who reserved before the first hand and sat in during it (no waiting flag) on the seat between the small
+and the big blind; the small blind busts and leaves. 4 seats, hand played with D=3 SB=0 BB=2, seat 0 now empty. -/
+def witnessD27 : SM.State :=
+  { maxSeat := 4, rule := .default, isInit := true, dealer := 3, sb := 0, bb := 2,
+    seats := SM.seatsOfList [none,
+      some { id := 4, isIn := true, between := false, hasChips := true },
+      some { id := 2, isIn := true, between := false, hasChips := true },
+      some { id := 1, isIn := true, between := false, hasChips := true }] }
+
+def witnessD27Players : List Player :=
+  [{ id := 1, seat := 3, bankroll := 2323, isIn := true }, { id := 2, seat := 2, bankroll := 372, isIn := true },
+   { id := 4, seat := 1, bankroll := 192, isIn := true }]
+
+/-- the rotation is accepted with D=0 (dead, empty), SB=2, BB=3; the player on seat 1 is dealt in *between the button and
+the small blind*; the label walk gives him `ug` and the player on the small-blind seat `dealer`, nobody `sb` -/
+theorem C06_between_button_and_sb_fails_on_witness :
+    (SM.rotateDefault witnessD27).2 = .ok ∧
+    ((SM.rotateDefault witnessD27).1.dealer, (SM.rotateDefault witnessD27).1.sb, (SM.rotateDefault witnessD27).1.bb) = (0, 2, 3) ∧
+    SM.activeAt (SM.rotateDefault witnessD27).1.seats 1 = true ∧
+    (assignPositions (SM.rotateDefault witnessD27).1 witnessD27Players).map (fun ps => ps.map (fun p => (p.id, p.positions))) =
+      some [(1, ["bb"]), (2, ["dealer"]), (4, ["ug"])] := by decide
+
 -- non-vacuity + an end-to-end instance: a 4-seat table, three dealt in, labels as the spec's monitor demands
 example : let t := gateFire (setup (start (join (join (join (reserve (reserve (reserve (create exCfg exBlind)
       { id := 1, chips := 500, seat := 0 } []).1 { id := 2, chips := 300, seat := 2 } []).1 { id := 3, chips := 200, seat := 3 } []).1
